@@ -122,7 +122,8 @@ def gen_op(rng, rows, fresh):
     """Return (opname, args) describing one step valid on the model."""
     n = len(rows)
     lens = [len(r) for r in rows]
-    ops = ['elem', 'elem', 'row_same', 'row_diff', 'int_slice', 'twod_scalar',
+    ops = ['elem', 'elem', 'paired_reuse', 'row_same', 'row_diff',
+           'int_slice', 'twod_scalar',
            'twod_rows', 'twod_ra', 'slice_int', 'mask_scalar', 'mask_vals',
            'paired', 'append_list', 'append_ra', 'binop', 'rbinop', 'cmp',
            'invert', 'aug', 'copyctor', 'list_slice']
@@ -184,6 +185,8 @@ def gen_op(rng, rows, fresh):
         if op == 'mask_scalar':
             return op, (mrows, fresh.take(1)[0])
         return op, (mrows, fresh.take(k))
+    if op == 'paired_reuse':
+        return op, (fresh.take(2),)
     if op == 'paired':
         k = min(int(rng.integers(1, 5)), sum(lens))
         cells = set()
@@ -252,6 +255,8 @@ def run_case(ctx, kind, rng, idx):
         hown = 'nested-lists'
     src_keep = srcs.copy() if srcs is not None else None
     fresh = Fresh(dtype)
+    reuse_keep = (np.array([-1, 0]), np.array([-1, -1]))
+    reuse_idx = [reuse_keep[0].copy(), reuse_keep[1].copy()]
     nsteps = int(rng.integers(1, 31))
     hist = []
     kinds = set()
@@ -317,6 +322,24 @@ def run_case(ctx, kind, rng, idx):
                     pos += k
                 a[R([m.copy() for m in mrows])] = (
                     v if op == 'mask_scalar' else v.copy())
+            elif op == 'paired_reuse':
+                # the same two index arrays ("last row, last element" and
+                # "first row, last element") are reused all through the
+                # history, across appends and row-length changes
+                (v,) = args
+                for r, c, x in zip(reuse_keep[0], reuse_keep[1], v):
+                    new_rows[r][c] = x
+                a[(reuse_idx[0], reuse_idx[1])] = v.copy()
+                if not (np.array_equal(reuse_idx[0], reuse_keep[0]) and
+                        np.array_equal(reuse_idx[1], reuse_keep[1])):
+                    bad.append(('ra.write.mutates-index',
+                                'index arrays %s/%s became %s/%s' % (
+                                    reuse_keep[0].tolist(),
+                                    reuse_keep[1].tolist(),
+                                    reuse_idx[0].tolist(),
+                                    reuse_idx[1].tolist())))
+                    reuse_idx[0][...] = reuse_keep[0]
+                    reuse_idx[1][...] = reuse_keep[1]
             elif op == 'paired':
                 rs, cs, v = args
                 for r, c, x in zip(rs, cs, v):
